@@ -122,7 +122,6 @@ Lemma for_run_brel x key rv body els items0 limit offset ic c b1 b2 : null b1 = 
              (for_run g rec x key rv body els items0 limit offset ic c b2).
 Proof.
   intro H. unfold for_run.
-  destruct (is_neg limit || is_neg offset); [apply brel_mk|].
   destruct (snd (fst (loop_slice _ _ _ _ _ _)) =? 0)%Z; [apply oblock_brel; exact H|].
   destruct (extend g _ _); [apply for_iter_brel; exact H|apply brel_mk].
 Qed.
